@@ -426,44 +426,6 @@ func runC18(c *mon.Ctx) {
 		}
 	}
 
-	// phase 5: the entropy source fails (nothing delivered, or a partial read, then an error). No message may be
-	// emitted then: its identifier could not hold 122 fresh random bits. An error or a panic is the only honest outcome.
-	type emitted struct{ kind, id string }
-	var emittedNoEntropy []emitted
-	failedCalls := 0
-	{
-		sp, _, _ := NewSP(BaseTime(c.Seed))
-		sp.SetSPSigningKeyStore(&saml2.KeyStore{Signer: sim.K("spsign").Signer, Cert: sim.Wide(sim.K("spsign"), BaseTime(c.Seed)).DER})
-		builders := []struct {
-			name string
-			fn   func() (*etree.Document, error)
-		}{
-			{"AuthnRequest", sp.BuildAuthRequestDocumentNoSig},
-			{"LogoutRequest", func() (*etree.Document, error) { return sp.BuildLogoutRequestDocumentNoSig("u", "s") }},
-			{"LogoutResponse", func() (*etree.Document, error) {
-				return sp.BuildLogoutResponseDocumentNoSig(saml2.StatusCodeSuccess, "_r")
-			}},
-			{"AuthnRequest(signed)", sp.BuildAuthRequestDocument},
-			{"LogoutRequest(signed)", func() (*etree.Document, error) { return sp.BuildLogoutRequestDocument("u", "s") }},
-			{"LogoutResponse(signed)", func() (*etree.Document, error) { return sp.BuildLogoutResponseDocument(saml2.StatusCodeSuccess, "_r") }},
-		}
-		for _, f := range []int64{1, 8, 16} {
-			spy.fail.Store(f)
-			for round := 0; round < 3; round++ {
-				for _, b := range builders {
-					var doc *etree.Document
-					var err error
-					pv, _ := mon.Guard(func() { doc, err = b.fn() })
-					failedCalls++
-					if pv == nil && err == nil && doc != nil && doc.Root() != nil {
-						emittedNoEntropy = append(emittedNoEntropy, emitted{b.name, doc.Root().SelectAttrValue("ID", "")})
-					}
-				}
-			}
-		}
-		spy.fail.Store(0)
-	}
-
 	// phase 6: signing fails now and then (the signing device is unavailable). The application keeps using the unsigned
 	// document it had built, or drops it; either way no later message may carry an identifier that was already handed out
 	var afterFailure []string
@@ -620,10 +582,6 @@ func runC18(c *mon.Ctx) {
 		}
 	}
 	c.Count("identifiers_from_short_reads", int64(len(shortIDs)))
-	c.Count("builder_calls_with_failing_entropy", int64(failedCalls))
-	for _, e := range emittedNoEntropy {
-		cs.Violation("emitted-without-entropy:"+e.kind, "while crypto/rand.Reader was failing, a %s was emitted with ID %q", e.kind, e.id)
-	}
 	if n := badFormat.Load(); n > 0 {
 		fb, _ := firstBad.Load().(string)
 		cs.Violation("identifier-format", "%d identifiers with a bad format; first: %s", n, fb)
@@ -668,6 +626,58 @@ func runC18(c *mon.Ctx) {
 	if len(cols[0].ids) > 0 && len(msgCols[0].ids) > 0 {
 		cs.Sample(map[string]any{"uuid": cols[0].ids[0], "message_id": "_" + msgCols[0].ids[0], "identifiers": total, "reads_in_NewV4": spy.inUUID.Load()})
 	}
+
+	// A case of its own, after everything above has been judged: should the library (or a goroutine it started) bring
+	// the process down while the source fails, that is an honest outcome too - and it costs this case only.
+	cf := c.Begin("failing-entropy", 0)
+	if cf == nil {
+		return
+	}
+	cf.Desc("crypto/rand.Reader failing after 0 / 7 / 15 bytes, every builder three times")
+	// phase 5: the entropy source fails (nothing delivered, or a partial read, then an error). No message may be
+	// emitted then: its identifier could not hold 122 fresh random bits. An error or a panic is the only honest outcome.
+	type emitted struct{ kind, id string }
+	var emittedNoEntropy []emitted
+	failedCalls := 0
+	{
+		sp, _, _ := NewSP(BaseTime(c.Seed))
+		sp.SetSPSigningKeyStore(&saml2.KeyStore{Signer: sim.K("spsign").Signer, Cert: sim.Wide(sim.K("spsign"), BaseTime(c.Seed)).DER})
+		builders := []struct {
+			name string
+			fn   func() (*etree.Document, error)
+		}{
+			{"AuthnRequest", sp.BuildAuthRequestDocumentNoSig},
+			{"LogoutRequest", func() (*etree.Document, error) { return sp.BuildLogoutRequestDocumentNoSig("u", "s") }},
+			{"LogoutResponse", func() (*etree.Document, error) {
+				return sp.BuildLogoutResponseDocumentNoSig(saml2.StatusCodeSuccess, "_r")
+			}},
+			{"AuthnRequest(signed)", sp.BuildAuthRequestDocument},
+			{"LogoutRequest(signed)", func() (*etree.Document, error) { return sp.BuildLogoutRequestDocument("u", "s") }},
+			{"LogoutResponse(signed)", func() (*etree.Document, error) { return sp.BuildLogoutResponseDocument(saml2.StatusCodeSuccess, "_r") }},
+		}
+		for _, f := range []int64{1, 8, 16} {
+			spy.fail.Store(f)
+			for round := 0; round < 3; round++ {
+				for _, b := range builders {
+					var doc *etree.Document
+					var err error
+					pv, _ := mon.Guard(func() { doc, err = b.fn() })
+					failedCalls++
+					if pv == nil && err == nil && doc != nil && doc.Root() != nil {
+						emittedNoEntropy = append(emittedNoEntropy, emitted{b.name, doc.Root().SelectAttrValue("ID", "")})
+					}
+				}
+			}
+		}
+		spy.fail.Store(0)
+	}
+
+	c.Count("builder_calls_with_failing_entropy", int64(failedCalls))
+	for _, e := range emittedNoEntropy {
+		cf.Violation("emitted-without-entropy:"+e.kind, "while crypto/rand.Reader was failing, a %s was emitted with ID %q", e.kind, e.id)
+	}
+	cf.Nontrivial("failing-entropy")
+	cf.Outcome(fmt.Sprintf("refused-%d", failedCalls-len(emittedNoEntropy)))
 }
 
 // docFromRedirect recovers the AuthnRequest document from a redirect-binding URL.
